@@ -13,12 +13,20 @@ def cfg_hook(rng, cfg, fam, i):
     # emphasise tiny / huge caches and dedicated-SRAM spilling
     if i % 3 == 0:
         cfg["cache"] = int(rng.choice([2048, 4096, 8192, 16384, 32768, 65536]))
+    if fam == "buffer-stress" and i % 2:
+        # weights streamed through (double) buffers in unequal depth slices need the Performance strategy and room for the buffers
+        cfg["optimise"] = "Performance"
+        cfg["cache"] = [None, 16384, 32768, 65536][(i // 2) % 4]
     if i % 4 == 1 and "u65" in cfg["acc"]:
         cfg["mode"] = [str(rng.choice(["Ethos_U65_High_End", "Ethos_U65_Mid_End"])), str(rng.choice(["Dedicated_Sram", "Dedicated_Sram_512KB"]))]
 
 
+FAMILIES = ["buffer-stress", "exact-chain", "stripe-stress", "exact-dag", "alias-stress", "buffer-stress", "exact-chain", "shared-weights", "stripe-resize", "approx-tail",
+            "buffer-stress", "mixed-width", "cpu-mix", "exact-chain-big", "lut-stress", "tiny", "exact-dag"]
+
+
 def gen_cases(tier, seed):
-    return campaign.gen_cases(tier, seed, 2, 420, 12000, cfg_hook=cfg_hook)
+    return campaign.gen_cases(tier, seed, 2, 420, 12000, families=FAMILIES, cfg_hook=cfg_hook)
 
 
 def check_artefact(c, viol, counters, sets):
